@@ -184,7 +184,11 @@ class CapturedPath:
 
   def _find_edge_from_path_to_segment(self, path, oriented_segment):
     edges = []
+    seen = set()
     for edge in oriented_segment.line.edges:
+      if id(edge) in seen:
+        continue # an edge from a segment to itself is listed twice
+      seen.add(id(edge))
       if (edge.sid1 == oriented_segment and edge.sid2 == path[-1]) or \
          (edge.sid1 == path[-1] and edge.sid2 == oriented_segment):
         edges.append(gfapy.OrientedLine(edge, "+"))
